@@ -115,7 +115,7 @@ def mc_configs(pid, tier):
     cfgs = [
         ("mc_crash_files", consts(pid, OpKinds={"write_file", "open", "write", "set_len", "sync_all", "sync_data", "sync_dir", "rename",
                                                 "remove_file", "crash"},
-                                  RenFiles={"/a", "/b"}, OpenModes={"rw", "ac"}, MaxLen=5 if q else 6, MaxCrash=1)),
+                                  RenFiles={"/a", "/b"}, OpenModes={"rw", "ac"}, MaxLen=4 if q else 6, MaxCrash=1)),
         ("mc_crash_dirs", consts(pid, OpKinds={"write_file", "sync_dir", "rename", "remove_file", "create_dir", "remove_dir", "crash"},
                                  FilePaths={"/a", "/d/a"}, DirPaths={"/d"}, RenFiles={"/a", "/d/a"},
                                  ViewSet={"/", "/a", "/d", "/d/a"}, MaxLen=5 if q else 6, MaxCrash=2)),
@@ -304,11 +304,14 @@ def judge_runs(ck, fam, pid, tag, rejects, devs, drifts, describe, payload_of, c
 
 def run_gen(ck, fam, pid, name, c, emit, view, fes, w, only_line=None):
     gc = dict(c, EmitMode=emit)
-    r = vlib.run_tlc(SUB, "FsGen", cfg_text("GenSpec", gc, view="GenView" if view else None), f"{pid}_{name}",
+    # the generation run is at the same time a design-level run (same invariants as the mc_* configurations)
+    r = vlib.run_tlc(SUB, "FsGen", cfg_text("GenSpec", gc, invariants=["RefWellformed", "ImplInv", "DivergenceExplained"],
+                                             view="GenView" if view else None), f"{pid}_{name}",
                      workers=10, timeout=1500, heap="12g")
     if r.violated or r.error or r.timed_out:
-        log(vlib.counterexample_text(r))
-        raise MachineryError(f"behaviour generation {name} failed ({r.violated or r.error or 'timeout'})")
+        log(vlib.counterexample_text(r)[:6000])
+        raise MachineryError(f"behaviour generation {name} failed ({r.violated or r.error or 'timeout'}); if DivergenceExplained is "
+                             f"violated FsImpl leaves FsRef at a point that no Dev_* predicate of a recorded finding explains")
     behs = vlib.extract_replays(r.stdout)
     ck.add_tlc(r, name)
     r.stdout = ""
